@@ -229,6 +229,18 @@ void slu_verif_event(int kind, int a, int b)
         }
     }
 }
+/* initial capacities of the growable factor arrays (guarded hook in ?LUMemInit): 0 = keep the library's guess */
+static __thread long T_cap[3]; static __thread long T_cap_seen[3]; static __thread long T_cap_calls;
+void slu_verif_capacity(int_t *nzlumax, int_t *nzumax, int_t *nzlmax)
+{
+    T_cap_calls++; T_cap_seen[0] = (long)*nzlumax; T_cap_seen[1] = (long)*nzumax; T_cap_seen[2] = (long)*nzlmax;
+    if (T_cap[0] > 0) *nzlumax = (int_t)T_cap[0];
+    if (T_cap[1] > 0) *nzumax = (int_t)T_cap[1];
+    if (T_cap[2] > 0) *nzlmax = (int_t)T_cap[2];
+}
+void vf_cap_set(long lusup, long ucol, long lsub) { T_cap[0] = lusup; T_cap[1] = ucol; T_cap[2] = lsub; }
+long vf_cap_default(int which) { return T_cap_seen[which]; }
+long vf_cap_calls(void) { return T_cap_calls; }
 void vf_events_reset(void) { for (int i = 0; i < 6; i++) { T_ev[i] = 0; T_ev_first[i] = -1; } T_zp_nocand = 0; }
 int vf_zero_pivot_without_candidate(void) { return T_zp_nocand; }
 long vf_events_count(int k) { return T_ev[k]; }
@@ -415,7 +427,7 @@ int main(int argc, char **argv)
         rng_seed(&c.rng, seed, ph ^ (uint64_t)prec, (uint64_t)i);
         G_cur = &c; G_desc_emitted = 0;
         char line[96]; snprintf(line, sizeof line, "{\"t\":\"start\",\"i\":%ld}\n", i); out_line(line);
-        vf_ledger_reset_counters(); vf_events_reset(); vf_fault_arm(NULL, 0); vf_ienv_default();
+        vf_ledger_reset_counters(); vf_events_reset(); vf_cap_set(0, 0, 0); vf_fault_arm(NULL, 0); vf_ienv_default();
         vf_set_junk((int)(rng_u64(&c.rng) % 4 == 0 ? 256 : (int[]){ 0x00, 0xFF, 0xA5 }[i % 3]));
         struct itimerval it = { { 0, 0 }, { cpu, 0 } }; setitimer(ITIMER_PROF, &it, NULL);
         fn(&c);
